@@ -83,6 +83,8 @@ pub trait JitterOps {
     fn set_pool(&mut self, v: u64);
     fn stir(&mut self);
     fn half_pending(&self) -> bool;
+    /// readings consumed so far from this generator's own timer cursor
+    fn timer_consumed(&self) -> usize;
 }
 
 /// A generator type.
@@ -134,6 +136,9 @@ pub trait Registry: Sync + Send {
     fn core_types(&self) -> Vec<&'static dyn GenType>;
     /// JitterRng::new_with_timer over a scripted timer
     fn jitter(&self, script: Arc<TimerScript>) -> Box<dyn Gen>;
+    /// like `jitter`, but `clone()` of the generator gets an independent cursor over the same
+    /// readings (an identical scripted timer) instead of sharing the call counter
+    fn jitter_forking(&self, script: Arc<TimerScript>) -> Box<dyn Gen>;
     fn jitter_info(&self) -> &TypeInfo;
     /// IsaacArray<u32>/<u64> PartialEq probe: returns (pairs compared, first failure)
     fn isaac_array_probe(&self) -> (u64, Option<String>);
@@ -150,13 +155,17 @@ pub trait Registry: Sync + Send {
 pub struct Horizon;
 
 pub struct TimerScript {
-    pub readings: Vec<u64>,
+    pub readings: Arc<Vec<u64>>,
     pub pos: AtomicUsize,
 }
 
 impl TimerScript {
     pub fn new(readings: Vec<u64>) -> Arc<TimerScript> {
-        Arc::new(TimerScript { readings, pos: AtomicUsize::new(0) })
+        Arc::new(TimerScript { readings: Arc::new(readings), pos: AtomicUsize::new(0) })
+    }
+    /// An independent cursor over the same readings, starting at this cursor's position.
+    pub fn fork(&self) -> Arc<TimerScript> {
+        Arc::new(TimerScript { readings: self.readings.clone(), pos: AtomicUsize::new(self.consumed()) })
     }
     pub fn read(&self) -> u64 {
         let i = self.pos.fetch_add(1, Ordering::Relaxed);
